@@ -414,6 +414,44 @@ def _guard_text(mod, node, stop):
     return ' and '.join(out)
 
 
+@rule('C15', 'C15-R6', 'the consensus record describes the same molecule as the source reads: the fragment-count tag TF is computed by the same expression '
+                       'for source reads and pseudo-reads, and every aligned base of every read of the molecule enters the base observations (reads are '
+                       'not skipped by their flags: write_tags has marked fragments 2..n duplicate before the consensus is built)')
+def r6(ctx):
+    w = ctx.fn(MOLECULE, 'Molecule.write_tags')
+    p = ctx.fn(MOLECULE, 'Molecule.write_tags_to_psuedoreads')
+
+    def tf_values(f):
+        out = []
+        for c in walk_no_nested(f):
+            if isinstance(c, ast.Call) and isinstance(c.func, ast.Attribute) and c.func.attr in ('set_meta', 'set_tag') and len(c.args) >= 2 \
+                    and isinstance(c.args[0], ast.Constant) and c.args[0].value == 'TF':
+                out.append(c.args[1])
+        return out
+    a, b = tf_values(w), tf_values(p)
+    ok = len(a) == 1 and len(b) == 1 and linform(a[0]) is not None and str(linform(a[0])) == str(linform(b[0]))
+    ctx.emit('C15-R6', ok, MOLECULE, b[0] if b else p, f'TF on source reads `{src(a[0]) if a else None}` and on the consensus record `{src(b[0]) if b else None}`' +
+             (' are the same count' if ok else ' differ: the consensus record reports another fragment count than the reads it was built from'), key='TF-agrees',
+             what='write_tags_to_psuedoreads: the TF tag of the consensus record differs from the TF tag of the source reads')
+    g = ctx.fn(MOLECULE, 'Molecule.get_base_confidence_dict')
+    loops = [l for l in walk_no_nested(g) if isinstance(l, ast.For) and 'iter_reads' in src(l.iter)]
+    if len(loops) != 1 or not isinstance(loops[0].target, ast.Name):
+        raise AnalysisError('get_base_confidence_dict: loop over self.iter_reads() not found')
+    l = loops[0]
+    rv = l.target.id
+    # every path through one iteration (for a read that is not None) reaches the inner loop over the aligned pairs
+    inner = [x for x in walk_no_nested(l) if isinstance(x, ast.For) and x is not l and 'get_aligned_pairs' in src(x.iter)]
+    ok = len(inner) == 1
+    why = 'loop over the aligned pairs not found'
+    if ok:
+        conds = [(t_, pol) for t_, pol in (reach_conds(l.body, inner[0]) or [])]
+        flags = [src(t_) for t_, pol in conds if any(isinstance(n_, ast.Attribute) and n_.attr in ('is_duplicate', 'is_qcfail', 'is_secondary', 'is_supplementary', 'mapping_quality') for n_ in ast.walk(t_))]
+        ok = not flags
+        why = 'every read of the molecule contributes its aligned bases' if ok else f'reads are skipped by {flags}: after write_tags only the first fragment would be observed'
+    ctx.emit('C15-R6', ok, MOLECULE, inner[0] if inner else l, 'get_base_confidence_dict: ' + why, key='observations-from-every-read',
+             what='get_base_confidence_dict skips reads by their flags')
+
+
 META = {
     'text': ('Decides structural necessary conditions of well-formed consensus pseudo-reads: every numpy/pysam attribute referenced on '
              'the consensus call chain exists in the installed library; CIGAR arithmetic matches inclusive aligned blocks (M = end-start+1, '
